@@ -81,6 +81,29 @@ func ComputeLockSets(fn *ssa.Function, entry map[string]bool) *LockSets {
 }
 
 func transferLock(in ssa.Instruction, set map[string]bool) {
+	// `defer mu.Unlock()`: the deferred unlocks whose defer statement dominates this point run here
+	if rd, isrd := in.(*ssa.RunDefers); isrd {
+		for _, b := range rd.Parent().Blocks {
+			for _, x := range b.Instrs {
+				d, isd := x.(*ssa.Defer)
+				if !isd || !b.Dominates(rd.Block()) {
+					continue
+				}
+				k, known := lockCalls[CalleeName(d)]
+				args := CallArgs(d)
+				if !known || len(args) == 0 {
+					continue
+				}
+				switch k {
+				case "unlock":
+					delete(set, DescDeep(args[0]))
+				case "runlock":
+					delete(set, DescDeep(args[0])+":r")
+				}
+			}
+		}
+		return
+	}
 	op, l, ok := LockOp(in)
 	if !ok {
 		return
